@@ -439,6 +439,19 @@ impl Context {
     }
 }
 
+// verification-only hooks (off by default): observe / preset the message length counter
+#[cfg(feature = "verif-hooks")]
+impl Context {
+    /// (verification hook) number of bytes processed so far
+    pub fn verif_processed_bytes(&self) -> u128 {
+        self.processed_bytes as u128
+    }
+    /// (verification hook) preset the number of bytes processed so far (truncated to the counter width)
+    pub fn verif_set_processed_bytes(&mut self, n: u128) {
+        self.processed_bytes = n as u64;
+    }
+}
+
 #[cfg(test)]
 mod tests {
     use super::super::tests::{test_hashing, Test};
